@@ -36,6 +36,10 @@ structure SlotObs where
   recs : Option (List Record) := none
   delim : Option Str := none
   derived : Option Derivation := none
+  /-- the records the slot's loader input denotes (C13) -/
+  expect : Option (List Record) := none
+  /-- for `from_reverse_prefix_map` any shortest URI prefix of a group may be canonical -/
+  expectAnyShortest : Bool := false
 
 abbrev SlotTable := List SlotObs
 
@@ -56,6 +60,7 @@ def Step.target : Step → Option Nat
   | .query .. => none
   | .dups .. => none
   | .fresh dst .. => some dst
+  | .discover dst .. => some dst
   | .remapCurie dst .. => some dst
   | .remapUri dst .. => some dst
   | .rewire dst .. => some dst
@@ -109,16 +114,19 @@ def checkStep (idx : Nat) (t : SlotTable) (st : Step) (obs : Val) : SlotTable ×
       | none => [])
   | .init dst recs _ strict => (t.put { slot := dst }, checkInit idx "Converter(...)" (.ok recs) strict obs)
   | .loadPm dst pm _ strict =>
-    (t.put { slot := dst }, checkInit idx "from_prefix_map" (.ok (Loaders.prefixMapRecords pm)) strict obs)
+    (t.put { slot := dst, expect := some (Loaders.prefixMapRecords pm) },
+      checkInit idx "from_prefix_map" (.ok (Loaders.prefixMapRecords pm)) strict obs)
   | .loadPriority dst data =>
-    (t.put { slot := dst }, checkInit idx "from_priority_prefix_map" (Loaders.priorityRecords data) true obs)
+    (t.put { slot := dst, expect := (Loaders.priorityRecords data).toOption },
+      checkInit idx "from_priority_prefix_map" (Loaders.priorityRecords data) true obs)
   | .loadReverse dst rpm =>
-    (t.put { slot := dst }, checkInit idx "from_reverse_prefix_map" (Loaders.reverseRecords rpm) true obs)
+    (t.put { slot := dst, expect := (Loaders.reverseRecords rpm).toOption, expectAnyShortest := true },
+      checkInit idx "from_reverse_prefix_map" (Loaders.reverseRecords rpm) true obs)
   | .loadJsonld dst ctx =>
-    (t.put { slot := dst }, checkInit idx "from_jsonld"
-      ((Loaders.jsonldPrefixMap ctx).map Loaders.prefixMapRecords) true obs)
+    (t.put { slot := dst, expect := ((Loaders.jsonldPrefixMap ctx).map Loaders.prefixMapRecords).toOption },
+      checkInit idx "from_jsonld" ((Loaders.jsonldPrefixMap ctx).map Loaders.prefixMapRecords) true obs)
   | .loadUpgrade dst pm =>
-    (t.put { slot := dst },
+    (t.put { slot := dst, expect := (Loaders.upgradePrefixMap pm).toOption },
       match Loaders.upgradePrefixMap pm, obs with
       | .ok _, .none => []
       | _, _ => [s!"step {idx}: a strict converter does not accept the records of upgrade_prefix_map"])
@@ -145,6 +153,16 @@ def checkStep (idx : Nat) (t : SlotTable) (st : Step) (obs : Val) : SlotTable ×
               (Spec.C12.ok before l (Spec.C12.selUri rm)).map fun m => s!"step {idx}: remap_uri_prefixes: {m}"
             | some (.rewire before rm) =>
               (Spec.C12.ok before l (Spec.C12.selRewire rm)).map fun m => s!"step {idx}: rewire: {m}"
+            | none => [])
+        ++ (match o.expect with
+            | some want =>
+              let same (w r : Record) : Bool :=
+                if o.expectAnyShortest then
+                  w.pfx == r.pfx && Spec.sameSet w.pSyn r.pSyn && Spec.sameSet w.allU r.allU &&
+                    r.allU.all (fun k => r.uri.length ≤ k.length)
+                else Spec.sameRecord w r
+              if want.length == l.length && want.all (fun w => l.any (same w)) then []
+              else [s!"step {idx}: the loaded converter does not hold exactly the records its input denotes"]
             | none => [])
       (t.put { o with recs := some l }, errs)
     | "delimiter", .str d => (t.put { o with delim := some d }, [])
